@@ -115,7 +115,10 @@ CompIdent(cs, name) ==
       g == RPos(cs.glob, name) IN
   IF p > 0 THEN CEmit(cs, "GetLocal", <<(IF cs.infn THEN 0 ELSE cs.base.g0) + p - 1>>)
   ELSE IF g > 0 THEN CEmit(cs, "GetUpvalue", <<cs.base.g0 + g - 1>>)
-  ELSE IF name \in cs.fns THEN CLoadConst(cs, VFnRef("normal", name))
+  \* (the code consults BytecodeInterpreter::functions, which learns a name only AFTER its body has been compiled: a function
+  \*  that mentions ITSELF as a value hits unreachable!("Unknown identifier") unless an earlier definition of that name
+  \*  exists - finding C09-function-passes-itself-as-value-panics; the model states the evident intent)
+  ELSE IF name \in cs.fns \/ (cs.infn /\ cs.chunks[cs.cur].n = name) THEN CLoadConst(cs, VFnRef("normal", name))
   ELSE IF CFfiIdx(cs, name) >= 0 THEN CLoadConst(cs, VFnRef("foreign", name))
   ELSE CEmit(cs, "UNREACHABLE-unknown-identifier", <<>>)
 
